@@ -270,6 +270,16 @@ func plan(c *Ctx, seeds []*Seed, pc planCfg) []Case {
 				emit(s, m, 0, nil)
 			}
 		}
+		// A3b. paired / cross-referencing fields of JPEG 2000 marker segments (tiny streams: all Part 2
+		// seeds and the class representatives in the quick tier, every small stream in the thorough tier)
+		if !pc.forC09 && s.Fam == famJ2K && s.Small && (rep || strings.HasPrefix(s.Name, "xmct-")) {
+			for i, m := range pairedMutantsJ2K(s.Data, rng) {
+				emit(s, m, 1, nil)
+				if pc.thorough || strings.HasPrefix(s.Name, "xmct-") && i%2 == si%2 {
+					emit(s, m, 0, nil)
+				}
+			}
+		}
 		// A4. havoc
 		for k := 0; k < pc.havocPer/div+1; k++ {
 			emit(s, havoc(s.Data, rng, s.HdrLen), 0, nil)
@@ -484,7 +494,7 @@ func thin(cs []Case, budgetMs int64, rng *Rand) (kept []Case, dropped int) {
 	p := float64(budgetMs) / float64(total)
 	seen := map[string]int{}
 	for i := range cs {
-		if cs[i].Cost >= 2 && cs[i].Mut != "valid" { // valid corpus streams are never dropped
+		if cs[i].Cost >= 2 && cs[i].Mut != "valid" && !strings.HasPrefix(cs[i].Mut, "pair.") && !strings.HasPrefix(cs[i].Mut, "work.") { // valid corpus streams and the paired-field mutants are never dropped
 			k := cs[i].Entry + "|" + cs[i].Mut
 			seen[k]++
 			minKeep := 3
@@ -519,6 +529,15 @@ func execute(c *Ctx, cases []Case, st *runState, confirmTimeouts bool, on func(c
 			cnt["fam."+cases[i].Fam]++
 		}
 		fmt.Fprintf(os.Stderr, "[parsers] plan: %d cases %v\n", len(cases), cnt)
+	}
+	if v := os.Getenv("PARSERS_MUTPREFIX"); v != "" { // development aid
+		var keep []Case
+		for i := range cases {
+			if strings.HasPrefix(cases[i].Mut, v) {
+				keep = append(keep, cases[i])
+			}
+		}
+		cases = keep
 	}
 	if v := os.Getenv("PARSERS_FAM"); v != "" { // development aid
 		var keep []Case
@@ -562,8 +581,24 @@ func execute(c *Ctx, cases []Case, st *runState, confirmTimeouts bool, on func(c
 			for k, i := range again {
 				cs2[k] = batch[i]
 			}
-			if len(cs2) > 4 { // each costs up to 10 s, one at a time
-				cs2 = cs2[:4]
+			// signatures are per entry point: every entry point with a timeout gets up to two isolated
+			// confirmations per wave (smallest inputs first); further timeouts of the same entry point
+			// in this wave are not re-run (each costs up to 10 s, one at a time)
+			sort.SliceStable(again, func(a, b int) bool { return len(batch[again[a]].Data) < len(batch[again[b]].Data) })
+			perEntry := map[string]int{}
+			var pick []int
+			for _, i := range again {
+				if perEntry[batch[i].Entry] < 2 {
+					perEntry[batch[i].Entry]++
+					pick = append(pick, i)
+				} else {
+					res[i] = Res{Status: "err", Detail: "timeout, not re-run (another case of this entry point is being confirmed)"}
+				}
+			}
+			again = pick
+			cs2 = cs2[:0]
+			for _, i := range again {
+				cs2 = append(cs2, batch[i])
 			}
 			r2 := RunCases(runCfg{Workers: 1, Timeout: watchdog, ASLimit: asLimit}, cs2)
 			for k, i := range again {
@@ -572,6 +607,11 @@ func execute(c *Ctx, cases []Case, st *runState, confirmTimeouts bool, on func(c
 					// the isolated child is fresh: its CPU time is the CPU time of this one case. A wall-clock
 					// timeout during which the decoder did not even consume the watchdog's worth of CPU time is the machine's doing
 					// (other jobs), not the decoder's: inconclusive, never reported.
+					if r2[k].Status != "timeout" && r2[k].Ms > watchdog.Milliseconds() && r2[k].CPUms < watchdog.Milliseconds() {
+						// finished, slower than the watchdog in wall time but not in CPU time: overloaded machine
+						res[i].Ms = watchdog.Milliseconds()
+						c.R.Case("", false, "timeout.inconclusive-overloaded-machine")
+					}
 					if r2[k].Status == "timeout" {
 						var cpu int64 = -1
 						if j := strings.Index(r2[k].Detail, "cpu="); j >= 0 {
@@ -593,7 +633,7 @@ func execute(c *Ctx, cases []Case, st *runState, confirmTimeouts bool, on func(c
 		if lf := os.Getenv("PARSERS_LOG"); lf != "" {
 			if f, err := os.OpenFile(lf, os.O_APPEND|os.O_CREATE|os.O_WRONLY, 0o644); err == nil {
 				for i := range batch {
-					if res[i].Status != "ok" && res[i].Status != "err" || res[i].Ms > 1000 || res[i].Peak > 256<<20 {
+					if os.Getenv("PARSERS_LOGALL") != "" || res[i].Status != "ok" && res[i].Status != "err" || res[i].Ms > 1000 || res[i].Peak > 256<<20 {
 						fmt.Fprintf(f, "%s\t%d ms\t%d MiB\t%s\t%s\t%s\t%s\t%s\t%s\n", res[i].Status, res[i].Ms, res[i].Peak>>20, batch[i].Entry, batch[i].Mut, batch[i].Seed, clipStr(res[i].Detail, 200), batch[i].FI.String(), clipStr(hexs(batch[i].Data), 400))
 					}
 				}
@@ -835,7 +875,7 @@ func dumpCost() {
 	}
 	sort.Slice(l, func(i, j int) bool { return l[i].v[0] > l[j].v[0] })
 	for i, e := range l {
-		if i < 40 {
+		if i < 70 {
 			fmt.Fprintf(os.Stderr, "[parsers] cost %-50s %8d ms over %7d cases\n", e.k, e.v[0], e.v[1])
 		}
 	}
@@ -1127,7 +1167,17 @@ func runC09(c *Ctx) {
 		all := plan(c, seeds, pc)
 		rng := c.Rng.Fork()
 		rot := 0
+		inflSeen := map[string]int{}
 		for _, s := range seeds {
+			icls := s.Name
+			if i := strings.Index(icls, "-"); i > 0 {
+				icls = icls[:i]
+			}
+			icls += fmt.Sprintf("/%d", s.FI.SPP)
+			inflSeen[icls]++
+			if !c.Thor && inflSeen[icls] > 2 {
+				continue // quick tier: the first two streams of every (codec, components) class
+			}
 			for _, m := range inflations(s) {
 				// the inflated header with the whole body, with a short body, and with no body
 				bodies := [][]byte{m.data}
@@ -1180,6 +1230,45 @@ func runC09(c *Ctx) {
 				}
 			}
 		}
+		// declared counts far larger than the data (work.go): systematic over the progression orders
+		workSeen := map[string]int{}
+		wrot := 0
+		for _, s := range seeds {
+			cls := s.Name
+			if i := strings.Index(cls, "-"); i > 0 {
+				cls = cls[:i]
+			}
+			cls += fmt.Sprintf("/%d", s.FI.SPP)
+			var ms []mutant
+			switch {
+			case workSeedOK(s):
+				workSeen[cls]++
+				if workSeen[cls] <= 2 || c.Thor {
+					ms = workMutantsJ2K(s, c.Thor, workSeen[cls] == 1 && s.FI.SPP == 1)
+				}
+			case (s.Fam == famJPEG || s.Fam == famJLS) && s.Small && !strings.HasPrefix(s.Name, "x"):
+				workSeen[cls]++
+				if workSeen[cls] <= 1 || c.Thor && workSeen[cls] <= 4 {
+					ms = workMutantsScan(s, c.Thor)
+				}
+			}
+			for _, m := range ms {
+				names := []string{s.Home[0]}
+				if len(s.Home) > 1 {
+					names = append(names, s.Home[1+wrot%(len(s.Home)-1)])
+					wrot++
+				}
+				for _, hn := range names {
+					e := entryByName[hn]
+					var f *FI
+					if e.Codec {
+						ff := s.FI
+						f = &ff
+					}
+					all = append(all, Case{Entry: hn, Data: m.data, FI: f, Seed: s.Name, Mut: m.mut, Fam: s.Fam, Cost: 1})
+				}
+			}
+		}
 		// RLE: frame descriptions at the top of the domain
 		for k := 0; k < 200; k++ {
 			f := FI{W: uint16(rng.Pick(2048, 1024, 4096, 65535, 1)), SPP: uint16(rng.Pick(1, 3, 4)), BA: uint16(rng.Pick(0, 8, 16, 32, 65535)), Frames: 1, PC: uint16(rng.Intn(2))}
@@ -1217,6 +1306,7 @@ func runC09(c *Ctx) {
 		}
 	}
 	execute(c, cases, st, true, on)
+	dumpCost()
 	hs := sortedHits(st)
 	doneRoot := map[string]bool{}
 	for _, h := range hs {
